@@ -38,6 +38,11 @@ fn main() {
         eprintln!("watchdog: no verdict after {limit}s -- inconclusive");
         std::process::exit(2);
     });
+    if let Some(p) = args.iter().position(|a| a == "--render") {
+        let t = vcore::tape::Tape::from_hex(args.get(p + 1).map(|s| s.as_str()).unwrap_or("")).expect("bad tape hex");
+        println!("{}", serde_json::to_string_pretty(&check.render(&t)).unwrap());
+        std::process::exit(0);
+    }
     let code = if let Some(p) = args.iter().position(|a| a == "--replay") {
         let Some(path) = args.get(p + 1) else {
             eprintln!("--replay needs a file");
